@@ -60,6 +60,7 @@ pub fn all() -> Vec<Box<dyn Stream>> {
         Box::new(fault::Fault),
         Box::new(z64::Z64),
         Box::new(read::ReadStream),
+        Box::new(read::EocdWin),
         Box::new(write::WriteStream("write")),
         Box::new(write::WriteStream("append")),
         Box::new(write::WriteStream("rawcopy")),
